@@ -5,15 +5,16 @@ func init() {
 		ID:         "C31",
 		Level:      "other",
 		Technique:  "nil-guard dominance (CFG edges + short-circuit facts) over all reflection accessor closures, fast-path entry points and all generated getters (static)",
-		Explain:    "Decides structural necessary conditions of typed-nil safety: (1) every has/get/which accessor closure in the reflection tables and every getter closure returned by the getterFor* constructors uses its pointer argument only under !p.IsNil(); (2) the read-only fast-path entry points (sizePointer, marshalAppendPointer, checkInitializedPointer, mergePointer source) call p.Apply only under !p.IsNil(); (3) every generated Get*/Has*/Which* method in every .pb.go of the loaded packages dereferences its receiver only under x != nil. Also: accessor closures stored into table fields (oi.which = func…) are covered, and proto.Equal distinguishes an invalid from a valid message in both argument orders.",
+		Explain:    "Decides structural necessary conditions of typed-nil safety: (1) every has/get/which accessor closure in the reflection tables and every getter closure returned by the getterFor* constructors uses its pointer argument only under !p.IsNil(); (2) the read-only fast-path entry points (sizePointer, marshalAppendPointer, checkInitializedPointer, mergePointer source) call p.Apply only under !p.IsNil(); (3) every generated Get*/Has*/Which* method in every .pb.go of the loaded packages dereferences its receiver only under x != nil. Also: accessor closures stored into table fields (oi.which = func…) are covered, and proto.Equal distinguishes an invalid from a valid message in both argument orders. The text and JSON encoders reach CheckInitialized on every success path that was not asked for AllowPartial (R-CHECKINIT, shared with C10): an early return for a typed nil message would skip the required-field check an empty message gets.",
 		NotCovered: "that the value returned for nil equals the empty-message value (behavioural); protojson/prototext Format of typed nil beyond panic freedom of the accessors they call.",
-		Quick:      all("./internal/impl", "./types/...", "./proto"),
+		Quick:      all("./internal/impl", "./types/...", "./proto", "./encoding/prototext", "./encoding/protojson"),
 		Thorough:   all("./..."),
 		Run: func(c *Ctx) {
 			c.ruleNilGuardClosures("R-NIL-GUARD", 50)
 			c.ruleNilGuardEntries("R-NIL-ENTRY")
 			c.ruleGenNilGetters("R-GEN-NIL-GETTER", 100)
 			c.ruleEqualValidity("R-EQUAL-VALIDITY")
+			c.ruleCheckInitOnSuccess("R-CHECKINIT")
 		},
 	})
 }
